@@ -150,6 +150,18 @@ type Repo struct {
 	Dir   string
 	clock time.Time
 	Cmds  int
+	// Branch is the name of the branch under review ("feature" when empty)
+	Branch string
+}
+
+// BranchNames: what people call their branches; the last ones end in the name of the base branch
+var BranchNames = []string{"feature", "feature", "fix/rules", "cleanup/main", "backport/main"}
+
+func (r *Repo) branch() string {
+	if r.Branch == "" {
+		return "feature"
+	}
+	return r.Branch
 }
 
 func NewRepo() (*Repo, error) {
@@ -217,7 +229,7 @@ func (r *Repo) Apply(c Commit) error {
 		if _, err := r.Git("checkout", "-q", "main"); err != nil {
 			return err
 		}
-		defer func() { _, _ = r.Git("checkout", "-q", "feature") }()
+		defer func() { _, _ = r.Git("checkout", "-q", r.branch()) }()
 	case "rebase":
 		r.clock = r.clock.Add(time.Minute)
 		_, err := r.Git("rebase", "-q", "main")
